@@ -203,7 +203,9 @@ Idioms == <<
   <<"n", "+", "xs", "~", "$*c", "add">>,
   <<"xs", "~", "$*c", "add", "+", "n">>,
   <<"*", "ca", "~", "$*c", "add">>,
-  <<"xs", "~", "@", "inc", "$-i", "add">>
+  <<"xs", "~", "@", "inc", "$-i", "add">>,
+  <<"xs", "~", "$i+j", "add">>,
+  <<"n", "*", "xs", "~", "$i+j", "add">>
 >>
 \* sequences whose PRESCRIBED grouping is ill-typed (the prefix operator binds tighter than the level-3 postfix
 \* operators and would be applied to an array / a cell of an array) while another grouping would evaluate:
@@ -248,8 +250,8 @@ RowToks(r) == IF r <= NSearched THEN Searched[r].toks
 IdiomNames(toks) ==
   LET ps == OpdPos(toks)
       direct == [p \in 1..Len(ps) |-> toks[ps[p]].s]
-      emb == (IF \E x \in 1..Len(toks) : toks[x].s \in {"[i]", "(i)", "$i", "[i:j]", "$-i"} THEN <<"i">> ELSE <<>>)
-             \o (IF \E x \in 1..Len(toks) : toks[x].s = "[i:j]" THEN <<"j">> ELSE <<>>)
+      emb == (IF \E x \in 1..Len(toks) : toks[x].s \in {"[i]", "(i)", "$i", "[i:j]", "$-i", "$i+j"} THEN <<"i">> ELSE <<>>)
+             \o (IF \E x \in 1..Len(toks) : toks[x].s \in {"[i:j]", "$i+j"} THEN <<"j">> ELSE <<>>)
              \o (IF (\E x \in 1..Len(toks) : toks[x].s = "$*c") /\ (\A p \in 1..Len(ps) : toks[ps[p]].s # "c") THEN <<"c">> ELSE <<>>)
   IN direct \o emb
 
